@@ -54,7 +54,9 @@ class Paraxial:
         z_start = self.surfaces.positions[1] - 1
         wavelength = self.optic.primary_wavelength
         y, u = self._trace_generic(1.0, 0.0, z_start, wavelength)
-        f2 = -y[0] / u[-1]
+        # u[-2]: slope arriving at the image surface (the image surface
+        # refracts into its own post medium)
+        f2 = -y[0] / u[-2]
         return np.abs(f2[0])
 
     def F1(self):
@@ -81,7 +83,7 @@ class Paraxial:
         z_start = self.surfaces.positions[1] - 1
         wavelength = self.optic.primary_wavelength
         y, u = self._trace_generic(1.0, 0.0, z_start, wavelength)
-        F2 = -y[-1] / u[-1]
+        F2 = -y[-1] / u[-2]
         return F2[0]
 
     def P1(self):
@@ -183,7 +185,9 @@ class Paraxial:
         y, u = self._trace_generic(0.0, 0.1, z_start, wavelength,
                                    skip=stop_index+1)
 
-        loc_relative = -y[-1] / u[-1]
+        # slope with which the ray arrives at the image surface (the image
+        # surface refracts into its own post medium)
+        loc_relative = -y[-1] / u[-2]
         return loc_relative[0]
 
     def XPD(self):
